@@ -9,7 +9,8 @@ CONSTANTS Hosts, Fps,
           DevReplaceClearsInOwnTxn,  \* current import_toml(merge=False): self.clear() commits first
           DevExistenceViaSecondConn  \* current import_toml: get_host_info() reads `committed`, not `txn`
 None == "none"
-NameOf(h) == h         \* the host name of a host:port pair; the registered instance uses one port per name
+\* the host name of a host:port pair: "h3" is "h1"'s name on another port (a name may be pinned on several ports)
+NameOf(h) == IF h = "h3" THEN "h1" ELSE h
 CommitPc == 100
 DonePc == 200
 Empty == [h \in Hosts |-> None]
